@@ -9,7 +9,7 @@
    [weight] the joint weight of a path:
      Pi(x_0) e(x_0,0) * prod_k T_k(x_{k-1},x_k) e(x_k,k),  T_k = Tf for k = n-1, Tr otherwise. *)
 From Coq Require Import List Arith Bool QArith Qcanon Reals.
-From ADV Require Import C15.Model C15.Spec C15.Proofs.
+From ADV Require Import C15.Model C15.ModelBuf C15.Spec C15.Proofs.
 Import ListNotations.
 Open Scope nat_scope.
 
@@ -161,9 +161,179 @@ Theorem final_state_restriction_refuted :
   (0 < weight OpsQc (w_f 0%Qc w_pi) (w_f2 0%Qc w_tr) (w_f2 0%Qc w_tf) (fun i => i) w_e 2 w_path)%Qc.
 Proof. exact final_restriction_witness. Qed.
 
-(* the posterior of a sequence of state sets (Hmm.Posterior) has no theorem yet:
-   what is missing is the restricted forward recursion over the two swapped
-   buffers; it is compared with the enumeration in every correspondence case *)
+(* ================= round 2: work buffers, Posterior, Baum-Welch ================= *)
+
+(* forward / backward as state transformers on a work matrix with ARBITRARY prior
+   content (ModelBuf.v: every cell access of the Go loops is a read or write of
+   the buffer, cells are accumulated in place): the cells (i,k), i < m, k < n hold
+   the path sums and every other cell keeps its old value.  In particular every
+   cell that is read was written before -- this is what the initialisation loop
+   "beta(i, n-1) = 0" of backward / float64Backward provides. *)
+Theorem forward_on_any_buffer :
+  forall A (O : Ops A), CSemiring O -> forall m Pi Tr Tf smap e (alpha : @mat A) n i k,
+    forward_buf O m Pi Tr Tf smap e alpha n i k =
+    if (k <? n) && (i <? m)
+    then esum O (map (fun p => weight O Pi Tr Tf smap e n (p ++ [i])) (paths m k))
+    else alpha i k.
+Proof. exact forward_buf_top. Qed.
+
+Theorem backward_on_any_buffer :
+  forall A (O : Ops A), CSemiring O -> forall m Tr Tf smap e (beta : @mat A) n i k,
+    backward_buf O m Tr Tf smap e beta n i k =
+    if (k <? n) && (i <? m)
+    then esum O (map (wtail O Tr Tf smap e n (S k) i) (paths m (n - 1 - k)))
+    else beta i k.
+Proof. exact backward_buf_top. Qed.
+
+(* the float64-specialised copy (hmm_optimized.go) is the same state transformer ... *)
+Theorem optimized_is_generic_on_any_buffer :
+  forall A (O : Ops A) m Pi Tr Tf smap e (alpha beta : @mat A) n,
+    oforward_buf O m Pi Tr Tf smap e alpha n = forward_buf O m Pi Tr Tf smap e alpha n /\
+    obackward_buf O m Tr Tf smap e beta n = backward_buf O m Tr Tf smap e beta n.
+Proof. exact opt_buf_generic. Qed.
+
+(* ... so float64ForwardBackward on the two work matrices of a Baum-Welch thread
+   yields the path sums whatever the matrices held before *)
+Theorem float64_forward_backward_on_any_buffers :
+  forall A (O : Ops A), CSemiring O -> forall m Pi Tr Tf smap e (alpha beta : @mat A) n i k,
+    fst (ofb_buf O m Pi Tr Tf smap e (alpha, beta) n) i k =
+      (if (k <? n) && (i <? m)
+       then esum O (map (fun p => weight O Pi Tr Tf smap e n (p ++ [i])) (paths m k)) else alpha i k) /\
+    snd (ofb_buf O m Pi Tr Tf smap e (alpha, beta) n) i k =
+      (if (k <? n) && (i <? m)
+       then esum O (map (wtail O Tr Tf smap e n (S k) i) (paths m (n - 1 - k))) else beta i k).
+Proof. exact ofb_buf_top. Qed.
+
+(* a thread: any records (of any lengths, in any order) processed before on the
+   same two matrices do not change what the next record gets *)
+Theorem forward_backward_after_other_records :
+  forall A (O : Ops A), CSemiring O -> forall m Pi Tr Tf smap
+         (before : list (nat * (nat -> nat -> A))) (alpha0 beta0 : @mat A) n e i k,
+    k < n -> i < m ->
+    let ab := fold_left (fun ab r => ofb_buf O m Pi Tr Tf smap (snd r) ab (fst r)) before (alpha0, beta0) in
+    fst (ofb_buf O m Pi Tr Tf smap e ab n) i k =
+      esum O (map (fun p => weight O Pi Tr Tf smap e n (p ++ [i])) (paths m k)) /\
+    snd (ofb_buf O m Pi Tr Tf smap e ab n) i k =
+      esum O (map (wtail O Tr Tf smap e n (S k) i) (paths m (n - 1 - k))) /\
+    omul O (fst (ofb_buf O m Pi Tr Tf smap e ab n) i k) (snd (ofb_buf O m Pi Tr Tf smap e ab n) i k) =
+      enum_marginal O m Pi Tr Tf smap e n k i.
+Proof. exact ofb_thread_top. Qed.
+
+(* Hmm.Posterior over a sequence of state sets: for every n >= 1, m, every family
+   of duplicate-free sets of states below m (they may shrink and grow from one
+   position to the next) and ARBITRARY prior content of the two swapped alpha
+   vectors, the result is the total weight of the paths with x_k in states[k] for
+   all k over the likelihood (NaN iff the likelihood is zero): the cells that are
+   read were written in the step before, stale cells are never read *)
+Theorem posterior_on_any_buffers_is_enumerated :
+  forall A (O : Ops A), CSemifield O -> forall m Pi Tr Tf smap e n sts b0 b1,
+    0 < n -> length sts = n -> length b0 = m -> length b1 = m ->
+    (forall s, In s sts -> NoDup s /\ forall i, In i s -> i < m) ->
+    posterior_buf O m Pi Tr Tf smap e b0 b1 n sts =
+    if ois0 O (enum_likelihood O m Pi Tr Tf smap e n) then PNaN
+    else PVal (odiv O (enum_sets O m Pi Tr Tf smap e n sts) (enum_likelihood O m Pi Tr Tf smap e n)).
+Proof. exact posterior_buf_enum. Qed.
+
+(* ... in particular for the freshly allocated vectors of the code *)
+Theorem posterior_is_enumerated :
+  forall A (O : Ops A), CSemifield O -> forall m Pi Tr Tf smap e n sts,
+    0 < n -> length sts = n ->
+    (forall s, In s sts -> NoDup s /\ forall i, In i s -> i < m) ->
+    posterior O m Pi Tr Tf smap e n sts =
+    if ois0 O (enum_likelihood O m Pi Tr Tf smap e n) then PNaN
+    else PVal (odiv O (enum_sets O m Pi Tr Tf smap e n sts) (enum_likelihood O m Pi Tr Tf smap e n)).
+Proof. exact posterior_enum. Qed.
+
+(* Baum-Welch: alpha(i,k) T(i,j) e(j,k+1) beta(j,k+1) is the total weight of the
+   paths with x_k = i, x_{k+1} = j; these sum to the marginal and to the likelihood *)
+Theorem xi_is_pair_weight :
+  forall A (O : Ops A), CSemiring O -> forall m Pi Tr Tf smap e n k i j, k + 2 <= n -> i < m -> j < m ->
+    omul O (alpha_spec O m Pi Tr Tf smap e n k i)
+           (omul O (omul O (Tk Tr Tf n (S k) i j) (e (smap j) (S k))) (beta_spec O m Tr Tf smap e n (S k) j)) =
+    enum_pair O m Pi Tr Tf smap e n k i j.
+Proof. exact (fun A O CS m Pi Tr Tf smap e n k i j => xi_pair O CS m Pi Tr Tf smap e n k i j). Qed.
+
+Theorem pair_weights_sum_to_marginal :
+  forall A (O : Ops A), CSemiring O -> forall m Pi Tr Tf smap e n k i, k + 2 <= n -> i < m ->
+    esum O (map (enum_pair O m Pi Tr Tf smap e n k i) (seq 0 m)) = enum_marginal O m Pi Tr Tf smap e n k i.
+Proof. exact (fun A O CS m Pi Tr Tf smap e n k i => pair_marginal O CS m Pi Tr Tf smap e n k i). Qed.
+
+(* one Baum-Welch step, expected counts of ONE thread that processes the records
+   [recs] (length, emission table) in order on the same alpha/beta matrices, whose
+   prior content is arbitrary: the step fails iff some record has likelihood zero;
+   otherwise tmp.pi(i) is the sum over the records of the enumerated posterior
+   P(x_0 = i), tmp.tr(i,j) the sum over records and positions of the enumerated
+   posterior P(x_k = i, x_{k+1} = j) (the last transition is left out when final
+   states are set, as coded), and tmp.likelihood the product of the likelihoods.
+   Hypothesis: without final states Tf is Tr (the code uses the same object). *)
+Theorem baum_welch_expected_counts_are_enumerated :
+  forall A (O : Ops A), CSemifield O -> forall m ne Pi Tr Tf smap hasfinal,
+    (hasfinal = false -> forall i j, Tf i j = Tr i j) ->
+    forall (alpha beta : @mat A) (recs : list (nat * (nat -> nat -> A))),
+    (forall r, In r recs -> 0 < fst r) ->
+    if existsb (fun r => ois0 O (enum_likelihood O m Pi Tr Tf smap (snd r) (fst r))) recs
+    then bw_thread O m ne Pi Tr Tf smap hasfinal alpha beta recs = None
+    else exists s, bw_thread O m ne Pi Tr Tf smap hasfinal alpha beta recs = Some s /\
+      (forall i, i < m ->
+         nth i (bwPi s) (o0 O) =
+         esum O (map (fun r => odiv O (enum_marginal O m Pi Tr Tf smap (snd r) (fst r) 0 i)
+                                      (enum_likelihood O m Pi Tr Tf smap (snd r) (fst r))) recs)) /\
+      (forall i j, i < m -> j < m ->
+         nth j (nth i (bwTr s) []) (o0 O) =
+         esum O (map (fun r => esum O (map (fun k => odiv O (enum_pair O m Pi Tr Tf smap (snd r) (fst r) k i j)
+                                                            (enum_likelihood O m Pi Tr Tf smap (snd r) (fst r)))
+                                           (seq 0 (if hasfinal then fst r - 2 else fst r - 1)))) recs)) /\
+      bwLik s = fold_right (fun r acc => omul O (enum_likelihood O m Pi Tr Tf smap (snd r) (fst r)) acc) (o1 O) recs.
+Proof. exact (fun A O CF m ne Pi Tr Tf smap hasfinal Htf => bw_thread_spec O CF m ne Pi Tr Tf smap hasfinal Htf). Qed.
+
+(* per record, including the gamma vectors handed to the emission estimators
+   (C16): posterior marginals of the states, summed per emission class *)
+Theorem baum_welch_record_is_enumerated :
+  forall A (O : Ops A), CSemifield O -> forall m ne Pi Tr Tf smap hasfinal,
+    (hasfinal = false -> forall i j, Tf i j = Tr i j) ->
+    forall (s : bwst) n e, 0 < n -> length (bwPi s) = m -> wf_tr m (bwTr s) ->
+    if ois0 O (enum_likelihood O m Pi Tr Tf smap e n)
+    then bw_record O m ne Pi Tr Tf smap hasfinal s n e = None
+    else exists s', bw_record O m ne Pi Tr Tf smap hasfinal s n e = Some s' /\
+         length (bwPi s') = m /\ wf_tr m (bwTr s') /\
+         (forall i, i < m -> nth i (bwPi s') (o0 O) =
+                             oadd O (nth i (bwPi s) (o0 O))
+                                    (odiv O (enum_marginal O m Pi Tr Tf smap e n 0 i) (enum_likelihood O m Pi Tr Tf smap e n))) /\
+         (forall i j, i < m -> j < m ->
+            nth j (nth i (bwTr s') []) (o0 O) =
+            oadd O (nth j (nth i (bwTr s) []) (o0 O))
+                   (esum O (map (fun k => odiv O (enum_pair O m Pi Tr Tf smap e n k i j) (enum_likelihood O m Pi Tr Tf smap e n))
+                                (seq 0 (if hasfinal then n - 2 else n - 1))))) /\
+         bwGam s' = bwGam s ++ [map (fun k => bw_gclass O m ne smap
+                                     (map (fun i => odiv O (enum_marginal O m Pi Tr Tf smap e n k i)
+                                                           (enum_likelihood O m Pi Tr Tf smap e n)) (seq 0 m))) (seq 0 n)] /\
+         bwLik s' = omul O (bwLik s) (enum_likelihood O m Pi Tr Tf smap e n).
+Proof. exact (fun A O CF m ne Pi Tr Tf smap hasfinal Htf => bw_record_spec O CF m ne Pi Tr Tf smap hasfinal Htf). Qed.
+
+(* non-trivial instances: a reused matrix with stale content, sets that shrink and grow *)
+Example reuse_instance :
+  let Pi := fun i => nth i [Q2Qc (1 # 4); Q2Qc (3 # 4)] 0%Qc in
+  let Tr := fun i j => nth j (nth i [[Q2Qc (1 # 2); Q2Qc (1 # 2)]; [Q2Qc (1 # 4); Q2Qc (3 # 4)]] []) 0%Qc in
+  let e1 := fun c k => nth k (nth c [[Q2Qc (1 # 2); 1%Qc; Q2Qc (1 # 4); 1%Qc]; [1%Qc; Q2Qc (1 # 8); 1%Qc; Q2Qc (1 # 2)]] []) 0%Qc in
+  let e2 := fun c k => nth k (nth c [[Q2Qc (1 # 2); Q2Qc (1 # 4)]; [1%Qc; Q2Qc (3 # 4)]] []) 0%Qc in
+  let ab1 := ofb_buf OpsQc 2 Pi Tr Tr (fun i => i) e1 (fun _ _ => Q2Qc 7, fun _ _ => Q2Qc 7) 4 in
+  let ab2 := ofb_buf OpsQc 2 Pi Tr Tr (fun i => i) e2 ab1 2 in
+  (* the short record on top of the long one: its own columns are right ... *)
+  mat_cols 2 (snd ab2) 2 = backward OpsQc 2 Tr Tr (fun i => i) e2 2 /\
+  (* ... while columns 2 and 3 still hold what the long record left there *)
+  snd ab2 0 2 = snd ab1 0 2 /\ snd ab2 0 3 = 1%Qc /\ snd ab1 0 2 <> Q2Qc 7.
+Proof. repeat split; try (vm_compute; reflexivity). vm_compute. discriminate. Qed.
+
+Example posterior_instance :
+  let Pi := fun i => nth i [Q2Qc (1 # 4); Q2Qc (1 # 2); Q2Qc (1 # 4)] 0%Qc in
+  let Tr := fun i j => nth j (nth i [[Q2Qc (1 # 2); Q2Qc (1 # 4); Q2Qc (1 # 4)]; [Q2Qc (1 # 4); Q2Qc (1 # 2); Q2Qc (1 # 4)];
+                                     [Q2Qc (1 # 4); Q2Qc (1 # 4); Q2Qc (1 # 2)]] []) 0%Qc in
+  let e := fun c k => nth k (nth c [[Q2Qc (1 # 2); 1%Qc; Q2Qc (1 # 4); 1%Qc; 1%Qc]; [1%Qc; Q2Qc (1 # 8); 1%Qc; Q2Qc (1 # 2); 1%Qc];
+                                    [1%Qc; 1%Qc; Q2Qc (1 # 2); 1%Qc; Q2Qc (1 # 4)]] []) 0%Qc in
+  let sts := [[0; 1; 2]; [1]; [2; 0]; [1]; [0; 1; 2]] in
+  posterior_buf OpsQc 3 Pi Tr Tr (fun i => i) e [Q2Qc 5; Q2Qc 6; Q2Qc 7] [Q2Qc 8; Q2Qc 9; Q2Qc 10] 5 sts =
+  PVal (enum_sets OpsQc 3 Pi Tr Tr (fun i => i) e 5 sts / enum_likelihood OpsQc 3 Pi Tr Tr (fun i => i) e 5)%Qc.
+Proof. vm_compute. reflexivity. Qed.
 
 (* the hypotheses are satisfiable: the exact rationals of the correspondence
    run, the reals, and (max,x) on the non-negative rationals *)
